@@ -21,8 +21,8 @@ LEVEL_NOTE = ("Not decided: equality of results over all permutations (a schedul
               "legitimately depends on order and is outside the property.")
 
 
-def run(prog, rep):
-    C02.lazy_phases(prog, rep)
+def lazy_routing(prog, rep):
+    from ..lib.cfgq import cycle_avoiding
     # E6.o
     rep.rule("E6.o", "LazyGraph::push routes CreateEdge → edge_statements, AddGraphNodeAttribute/AddEdgeAttribute → attr_statements, Print → print_statements; "
                      "LazyGraph::evaluate runs the three lists in that order, each completely")
@@ -41,12 +41,26 @@ def run(prog, rep):
                 if g.variant in ("AddGraphNodeAttribute", "CreateEdge", "AddEdgeAttribute", "Print"):
                     others = {x.dst for x in switch_edges(body, tr, b) if x.dst != g.dst}
                     region = body.reach_from([g.dst], avoid=others)
+                    shared = set()
+                    for o in others:
+                        shared |= body.reach_from([o], avoid={g.dst})
                     for x in region:
                         t = body.term(x)
                         if t["k"] == "call" and is_callee(t, r"Vec::<T, A>::push$"):
-                            m = re.search(r"arg:self\.(\w+)$", canon(strip(tr.operand(t["args"][0]))))
+                            m = re.search(r"^\**arg:self\.(\w+)$", canon(strip(tr.operand(t["args"][0]))))
                             if m:
                                 routes.setdefault(g.variant, set()).add(m.group(1))
+                            elif x in shared:
+                                # `let queue = match stmt { V => &mut self.F, … }; queue.push(stmt)`: the queue is chosen in the arm
+                                for y in region - shared:
+                                    for st in body.blocks[y]["stmts"]:
+                                        if st["k"] == "assign" and st["rv"]["k"] == "ref":
+                                            m2 = re.search(r"^&\**arg:self\.(\w+)$", canon(tr.rvalue(st["rv"])))
+                                            if m2:
+                                                routes.setdefault(g.variant, set()).add(m2.group(1))
+                    if not any(body.term(x)["k"] == "call" and is_callee(body.term(x), r"Vec::<T, A>::push$") for x in region) or \
+                            (body.reach_from([g.dst], avoid={x for x in region if body.term(x)["k"] == "call" and is_callee(body.term(x), r"Vec::<T, A>::push$")}) & set(body.return_blocks())):
+                        routes.setdefault(g.variant, set()).add("<dropped on some path>")
         want = {"CreateEdge": {"edge_statements"}, "AddGraphNodeAttribute": {"attr_statements"}, "AddEdgeAttribute": {"attr_statements"}, "Print": {"print_statements"}}
         rep.check(routes == want, "E6.o", "LazyGraph::push :: routing", f.loc(), "routing table as specified", "deferred statements are routed %s" % {k: sorted(v) for k, v in routes.items()})
     ev = [f for f in prog.fns.values() if f.self_path == "tsg::execution::lazy::statements::LazyGraph" and f.name == "evaluate"]
@@ -57,6 +71,19 @@ def run(prog, rep):
         body, tr = f.body, Tracer(f.body)
         from ..engines.e3_driver import forward_loops, once_per_iteration
         order = []
+        # data-driven form: for phase in [&self.edge_statements, &self.attr_statements, &self.print_statements] { for stmt in phase {..} }
+        arr = r"array\{&\*arg:self\.edge_statements, &\*arg:self\.attr_statements, &\*arg:self\.print_statements\}"
+        outer = forward_loops(body, tr, "^" + arr + "$")
+        if len(outer) == 1:
+            inner = forward_loops(body, tr, r"^\(Iterator::next\(&IntoIterator::into_iter\(" + arr + r"\)\) as Some\)\.0$")
+            calls = [b for b, t in body.calls() if is_callee(t, r"LazyStatement::evaluate$")]
+            ok = len(inner) == 1 and inner[0][1] < outer[0][1]
+            if ok:
+                ok, msg = once_per_iteration(body, inner[0][0], inner[0][1], [b for b in calls if b in inner[0][1]])
+                # the inner loop is entered on every outer iteration
+                ok = ok and not cycle_avoiding(body, outer[0][0], outer[0][1], {inner[0][0]})
+            rep.check(ok, "E6.o", "LazyGraph::evaluate :: phases", f.loc(), "for phase in [edges, attrs, prints]: every statement of the phase evaluated", "the phase array is not evaluated completely and in order")
+            return
         for fld in ("edge_statements", "attr_statements", "print_statements"):
             lp = forward_loops(body, tr, r"arg:self\.%s$" % fld)
             if len(lp) != 1:
@@ -70,6 +97,11 @@ def run(prog, rep):
         ok = len(order) == 3 and body.dominates(order[0][1], order[1][1]) and body.dominates(order[1][1], order[2][1]) and \
             order[1][1] not in body.reach_from([order[2][1]]) and order[0][1] not in body.reach_from([order[1][1]])
         rep.check(ok, "E6.o", "LazyGraph::evaluate :: order", f.loc(), "edges, then attributes, then prints", "the three deferred phases do not run in the order edges → attributes → prints")
+
+
+def run(prog, rep):
+    C02.lazy_phases(prog, rep)
+    lazy_routing(prog, rep)
     # E6.f: locality (checker) + eager set + forcing only via evaluate_eager — C06's rules restricted to what matters here
     C06_rep = _Filter(rep, lambda key: True)
     _run_c06_subset(prog, rep)
